@@ -227,12 +227,18 @@ def transformKeywords (cfg : Cfg) (fuel : Nat) (isHeader : Bool) (schema : Kvs) 
   | .obj d => if isHeader && !hasKey "type" d then d ++ [("type", .str "string")] else d
   | _ => schema
 
-/-- `parameters_to_json_schema`: later parameter of the same name wins; `required` is de-duplicated -/
+/-- the `properties` dict of `parameters_to_json_schema`: a later parameter of the same name overwrites the earlier one -/
+def paramsProps (cfg : Cfg) (fuel : Nat) (isHeader : Bool) (ps : List Param) : Kvs :=
+  ps.foldl (fun acc p => setKey p.name (.obj (transformKeywords cfg fuel isHeader p.schema)) acc) ([] : Kvs)
+
+/-- the `required` list of `parameters_to_json_schema` (no duplicate entries) -/
+def paramsRequired (ps : List Param) : List String :=
+  ps.foldl (fun (acc : List String) p => if p.required && !acc.contains p.name then acc ++ [p.name] else acc) []
+
+/-- `parameters_to_json_schema` -/
 def paramsToSchema (cfg : Cfg) (fuel : Nat) (isHeader : Bool) (ps : List Param) : Kvs :=
-  let props := ps.foldl (fun acc p => setKey p.name (.obj (transformKeywords cfg fuel isHeader p.schema)) acc) ([] : Kvs)
-  let req := ps.foldl (fun (acc : List String) p => if p.required && !acc.contains p.name then acc ++ [p.name] else acc) []
-  [("properties", .obj props), ("additionalProperties", .bool false), ("type", .str "object"),
-   ("required", .arr (req.map Json.str))]
+  [("properties", .obj (paramsProps cfg fuel isHeader ps)), ("additionalProperties", .bool false), ("type", .str "object"),
+   ("required", .arr ((paramsRequired ps).map Json.str))]
 
 /-- `get_schema_for_location` before `prepare_schema`: path parameters are all required and string-typed ones get
     `minLength: 1` unless they set it themselves -/
